@@ -24,7 +24,7 @@ _PREAMBLE = struct.unpack('<H', MessageHeader.SYNC)
 # This is FileIndex._RAW_DTYPE with an additional size field. The size field is
 # used to check for overlapped messages created by any wrapper messages that may
 # contain valid FusionEngine content in their payload split across blocks.
-_RAW_DTYPE_WITH_SIZE = np.dtype([('int', '<u4'), ('type', '<u2'), ('offset', '<u8'), ('size', '<u2')])
+_RAW_DTYPE_WITH_SIZE = np.dtype([('int', '<u4'), ('type', '<u2'), ('offset', '<u8'), ('size', '<u4')])
 
 _logger = logging.getLogger('point_one.fusion_engine.parsers.fast_indexer')
 
